@@ -19,7 +19,9 @@
 (* It states the end-to-end forms of C01, C02, C03, C06 and C14 at COMMAND level.         *)
 EXTENDS Naturals, FiniteSets, Sequences, TLC
 CONSTANTS N, MaxCmd, MaxVar, NCtx, HookKinds,
-          Nesting      \* BOOLEAN: stages may belong to an included pipeline (graph 1) and outer stages may include it
+          Nesting,     \* BOOLEAN: stages may belong to an included pipeline (graph 1) and outer stages may include it
+          AtomicLaunch \* BOOLEAN: a loop moves a stage from Waiting to Running in one atomic step (compare-and-swap);
+                       \*   FALSE transcribes the code before the repair: the status is read, then written
 Stages == 1..N
 Ctxs == 1..NCtx
 Classes == {"OK", "FAIL", "FAILA", "CFALSE"}
@@ -28,14 +30,16 @@ VARIABLES deps, cls, ncmd, failAt, nvar, ctx, hb, ha, upFails,   \* configuratio
           gr, inc,                                       \* graph of a stage (0 outer, 1 the included pipeline);
                                                          \*   inc[s]: outer stage s runs the included pipeline
           status, gerr, loop,                            \* scheduler: stage statuses, g.error per graph, outer loop alive
-          nl, by,                                        \* nested Schedule of an including stage: none|loop|ret;
+          want, twice,                                   \* (only with ~AtomicLaunch) stages a nested loop has decided to
+                                                         \*   launch but not yet marked Running; a stage was launched twice
+          want, twice, nl, by,                                        \* nested Schedule of an including stage: none|loop|ret;
                                                          \*   by[s]: the including stage whose loop launched inner stage s
           gpc,                                           \* stage goroutine: none | launched | inrun | back | fin
           rpc, pt, role, done, rfail, ran,               \* run: none | entered | exited; progress point; job
                                                          \*   in execution; commands done; failed; hooks run
           upst, dn                                       \* context: up no|running|ok|failed; down no|running|done
 cfgv == <<deps, cls, ncmd, failAt, nvar, ctx, hb, ha, upFails, gr, inc>>
-vars == <<deps, cls, ncmd, failAt, nvar, ctx, hb, ha, upFails, gr, inc, status, gerr, loop, nl, by, gpc, rpc, pt, role, done, rfail, ran, upst, dn>>
+vars == <<deps, cls, ncmd, failAt, nvar, ctx, hb, ha, upFails, gr, inc, status, gerr, loop, want, twice, want, twice, nl, by, gpc, rpc, pt, role, done, rfail, ran, upst, dn>>
 
 Allow(s) == cls[s] = "FAILA"
 Fails(s) == cls[s] \in {"FAIL", "FAILA"}          \* the command at position failAt exits non-zero
@@ -58,6 +62,7 @@ Init == /\ gr \in (IF Nesting THEN [Stages -> Graphs] ELSE {[s \in Stages |-> 0]
         /\ upFails \in [Ctxs -> BOOLEAN]
         /\ status = [s \in Stages |-> "W"] /\ gerr = [g \in Graphs |-> FALSE] /\ loop = TRUE
         /\ nl = [s \in Stages |-> "none"] /\ by = [s \in Stages |-> 0]
+        /\ want = [s \in Stages |-> {}] /\ twice = FALSE
         /\ gpc = [s \in Stages |-> "none"] /\ rpc = [s \in Stages |-> "none"]
         /\ pt = [s \in Stages |-> "start"] /\ role = [s \in Stages |-> "none"]
         /\ done = [s \in Stages |-> 0] /\ rfail = [s \in Stages |-> FALSE] /\ ran = [s \in Stages |-> {}]
@@ -72,23 +77,39 @@ Visit(s) ==
   /\ IF cls[s] = "CFALSE" THEN status' = [status EXCEPT ![s] = "S"] /\ UNCHANGED <<gpc, by>>
      ELSE IF \E d \in deps[s] : Blocked(d) THEN status' = [status EXCEPT ![s] = "C"] /\ UNCHANGED <<gpc, by>>
      ELSE /\ \A d \in deps[s] : Sat(d)
+          /\ AtomicLaunch \/ gr[s] = 0
           /\ status' = [status EXCEPT ![s] = "R"] /\ gpc' = [gpc EXCEPT ![s] = "launched"]
           /\ \E i \in LiveLoops(s) : by' = [by EXCEPT ![s] = i]
+  /\ UNCHANGED <<cfgv, gerr, loop, want, twice, nl, rpc, pt, role, done, rfail, ran, upst, dn>>
+\* The code before the repair (AtomicLaunch = FALSE): the nested loop of including stage i reads the
+\* status of inner stage s and finds it ready ...
+VisitDecide(i, s) ==
+  /\ ~AtomicLaunch /\ inc[i] /\ nl[i] = "loop" /\ gr[s] = 1 /\ status[s] = "W" /\ s \notin want[i]
+  /\ cls[s] # "CFALSE" /\ \A d \in deps[s] : Sat(d)
+  /\ want' = [want EXCEPT ![i] = @ \cup {s}]
+  /\ UNCHANGED <<cfgv, status, gerr, loop, twice, nl, by, gpc, rpc, pt, role, done, rfail, ran, upst, dn>>
+\* ... and later stores Running and launches it - whether or not another loop has done so meanwhile
+VisitCommit(i, s) ==
+  /\ ~AtomicLaunch /\ s \in want[i]
+  /\ want' = [want EXCEPT ![i] = @ \ {s}]
+  /\ IF status[s] = "W"
+       THEN status' = [status EXCEPT ![s] = "R"] /\ gpc' = [gpc EXCEPT ![s] = "launched"] /\ by' = [by EXCEPT ![s] = i] /\ UNCHANGED twice
+       ELSE twice' = TRUE /\ UNCHANGED <<status, gpc, by>>
   /\ UNCHANGED <<cfgv, gerr, loop, nl, rpc, pt, role, done, rfail, ran, upst, dn>>
 \* the stage goroutine calls runStage -> TaskRunner.Run
 \* (an including stage: runStage -> Schedule of the included pipeline, whose loop is then alive)
 StageEnter(s) == /\ gpc[s] = "launched" /\ gpc' = [gpc EXCEPT ![s] = "inrun"]
                  /\ nl' = IF inc[s] THEN [nl EXCEPT ![s] = "loop"] ELSE nl
-                 /\ UNCHANGED <<cfgv, status, gerr, loop, by, rpc, pt, role, done, rfail, ran, upst, dn>>
+                 /\ UNCHANGED <<cfgv, status, gerr, loop, want, twice, by, rpc, pt, role, done, rfail, ran, upst, dn>>
 \* the nested Schedule of including stage i returns: every stage of the included pipeline is terminal
 \* and the stage goroutines THIS call launched have finished (its own WaitGroup)
 NReturn(i) == /\ inc[i] /\ nl[i] = "loop"
               /\ \A s \in Inner : status[s] \notin {"W", "R"} /\ (by[s] = i => gpc[s] \in {"none", "fin"})
               /\ nl' = [nl EXCEPT ![i] = "ret"]
-              /\ UNCHANGED <<cfgv, status, gerr, loop, by, gpc, rpc, pt, role, done, rfail, ran, upst, dn>>
+              /\ UNCHANGED <<cfgv, status, gerr, loop, want, twice, by, gpc, rpc, pt, role, done, rfail, ran, upst, dn>>
 \* --- runner layer ---
 RunEnter(s) == /\ ~inc[s] /\ gpc[s] = "inrun" /\ rpc[s] = "none" /\ rpc' = [rpc EXCEPT ![s] = "entered"]
-               /\ UNCHANGED <<cfgv, status, gerr, loop, nl, by, gpc, pt, role, done, rfail, ran, upst, dn>>
+               /\ UNCHANGED <<cfgv, status, gerr, loop, want, twice, nl, by, gpc, pt, role, done, rfail, ran, upst, dn>>
 
 \* The next job of the run of s, as a function of how far it got (runner.go Run, contextForTask):
 \*   "up"  context start-up (only the first run that needs the context executes it; the others wait)
@@ -113,7 +134,7 @@ NextOp(s) ==
 CmdStart(s) == /\ rpc[s] = "entered" /\ role[s] = "none" /\ NextOp(s) \notin {"wait", "exit"}
                /\ role' = [role EXCEPT ![s] = NextOp(s)]
                /\ upst' = IF NextOp(s) = "up" THEN [upst EXCEPT ![ctx[s]] = "running"] ELSE upst
-               /\ UNCHANGED <<cfgv, status, gerr, loop, nl, by, gpc, rpc, pt, done, rfail, ran, dn>>
+               /\ UNCHANGED <<cfgv, status, gerr, loop, want, twice, nl, by, gpc, rpc, pt, done, rfail, ran, dn>>
 \* the job ends; a failing one ends the run (the context's after still runs)
 CmdEnd(s) ==
   /\ role[s] # "none" /\ role' = [role EXCEPT ![s] = "none"]
@@ -127,33 +148,34 @@ CmdEnd(s) ==
        [] role[s] = "ta"  -> /\ pt' = [pt EXCEPT ![s] = "tad"] /\ ran' = [ran EXCEPT ![s] = @ \cup {"ta"}]
                              /\ UNCHANGED <<upst, done, rfail>>       \* a failing after hook is only logged
        [] OTHER           -> pt' = [pt EXCEPT ![s] = "cad"] /\ ran' = [ran EXCEPT ![s] = @ \cup {"ca"}] /\ UNCHANGED <<upst, done, rfail>>
-  /\ UNCHANGED <<cfgv, status, gerr, loop, nl, by, gpc, rpc, dn>>
+  /\ UNCHANGED <<cfgv, status, gerr, loop, want, twice, nl, by, gpc, rpc, dn>>
 RunExit(s) == /\ rpc[s] = "entered" /\ role[s] = "none" /\ NextOp(s) = "exit"
               /\ rpc' = [rpc EXCEPT ![s] = "exited"]
               /\ rfail' = [rfail EXCEPT ![s] = @ \/ (pt[s] = "start" /\ ctx[s] # 0)]   \* the start-up error
-              /\ UNCHANGED <<cfgv, status, gerr, loop, nl, by, gpc, pt, role, done, ran, upst, dn>>
+              /\ UNCHANGED <<cfgv, status, gerr, loop, want, twice, nl, by, gpc, pt, role, done, ran, upst, dn>>
 \* --- back in the stage goroutine: Run returned, the outcome is published (two stores for an allowed failure) ---
 StageRet(s) == /\ gpc[s] = "inrun" /\ gpc' = [gpc EXCEPT ![s] = "back"]
                /\ IF inc[s] THEN nl[s] = "ret" /\ rfail' = [rfail EXCEPT ![s] = gerr[1]]   \* Schedule returned LastError
                             ELSE rpc[s] = "exited" /\ UNCHANGED rfail
-               /\ UNCHANGED <<cfgv, status, gerr, loop, nl, by, rpc, pt, role, done, ran, upst, dn>>
+               /\ UNCHANGED <<cfgv, status, gerr, loop, want, twice, nl, by, rpc, pt, role, done, ran, upst, dn>>
 Publish(s) == /\ gpc[s] = "back"
               /\ IF rfail[s] /\ status[s] = "R"
                    THEN /\ status' = [status EXCEPT ![s] = "E"]
                         /\ IF Allow(s) THEN UNCHANGED <<gpc, gerr>> ELSE gpc' = [gpc EXCEPT ![s] = "fin"] /\ gerr' = [gerr EXCEPT ![gr[s]] = TRUE]
                    ELSE status' = [status EXCEPT ![s] = "D"] /\ gpc' = [gpc EXCEPT ![s] = "fin"] /\ UNCHANGED gerr
-              /\ UNCHANGED <<cfgv, loop, nl, by, rpc, pt, role, done, rfail, ran, upst, dn>>
+              /\ UNCHANGED <<cfgv, loop, want, twice, nl, by, rpc, pt, role, done, rfail, ran, upst, dn>>
 \* the loop sees every stage terminal and leaves; Schedule returns after wg.Wait
 LoopExit == /\ loop /\ \A s \in Stages : gr[s] = 0 => status[s] \notin {"W", "R"}
             /\ loop' = FALSE
-            /\ UNCHANGED <<cfgv, status, gerr, nl, by, gpc, rpc, pt, role, done, rfail, ran, upst, dn>>
+            /\ UNCHANGED <<cfgv, status, gerr, want, twice, nl, by, gpc, rpc, pt, role, done, rfail, ran, upst, dn>>
 \* --- TaskRunner.Finish after Schedule returned: down of every context that was used ---
 Returned == ~loop /\ \A s \in Stages : gr[s] = 0 => gpc[s] \in {"none", "fin"} /\ status[s] \notin {"W", "R"}
 DownStart(c) == /\ Returned /\ upst[c] # "no" /\ dn[c] = "no" /\ dn' = [dn EXCEPT ![c] = "running"]
-                /\ UNCHANGED <<cfgv, status, gerr, loop, nl, by, gpc, rpc, pt, role, done, rfail, ran, upst>>
+                /\ UNCHANGED <<cfgv, status, gerr, loop, want, twice, nl, by, gpc, rpc, pt, role, done, rfail, ran, upst>>
 DownEnd(c) == /\ dn[c] = "running" /\ dn' = [dn EXCEPT ![c] = "done"]
-              /\ UNCHANGED <<cfgv, status, gerr, loop, nl, by, gpc, rpc, pt, role, done, rfail, ran, upst>>
+              /\ UNCHANGED <<cfgv, status, gerr, loop, want, twice, nl, by, gpc, rpc, pt, role, done, rfail, ran, upst>>
 Next == \/ LoopExit
+        \/ \E i, s \in Stages : VisitDecide(i, s) \/ VisitCommit(i, s)
         \/ \E s \in Stages : Visit(s) \/ StageEnter(s) \/ NReturn(s) \/ RunEnter(s) \/ CmdStart(s) \/ CmdEnd(s) \/ RunExit(s) \/ StageRet(s) \/ Publish(s)
         \/ \E c \in Ctxs : DownStart(c) \/ DownEnd(c)
 Spec == Init /\ [][Next]_vars /\ WF_vars(Next)
@@ -197,6 +219,8 @@ DownAfterAll == \A c \in Ctxs : dn[c] # "no" => Returned /\ \A s \in Stages : rp
 OneUpAtATime == \A c \in Ctxs : Cardinality({s \in Stages : role[s] = "up" /\ ctx[s] = c}) <= 1
 \* C03: when the run has returned nothing of the included pipeline is still going on
 NothingRunsAtReturn == Returned => \A s \in Stages : gpc[s] \in {"none", "fin"} /\ status[s] # "R"
+\* C03: no stage is launched twice (two nested loops over one included pipeline)
+NoDoubleLaunch == ~twice
 \* C02 / C03 / C14 at the end of the run
 FinalOK == Returned => /\ \A s \in Stages : status[s] = ExpFinal(s)
                        /\ gerr[0] = (\E s \in Stages : gr[s] = 0 /\ Exp(s) = "E")
